@@ -286,3 +286,205 @@ theorem lemma_vmdkPP (s : Insp) (hf : s.fmt = .vmdk) (h : SInv s) :
               exact ⟨this.1, this.2.trans f1⟩
 
 end Oslo.Insp
+
+namespace Oslo.Insp
+
+theorem lemma_postProcess_inv (s : Insp) (h : SInv s) :
+    SInv (postProcess s).1 ∧ (postProcess s).1.fmt = s.fmt := by
+  unfold postProcess
+  split
+  · rename_i hf; exact lemma_vhdxPP s hf h
+  · rename_i hf; exact lemma_vmdkPP s hf h
+  · exact ⟨h, rfl⟩
+
+theorem lemma_captureAll_inv (s : Insp) (c : Bytes) (only : List String) (h : SInv s) :
+    SInv (s.captureAll c only) ∧ (s.captureAll c only).fmt = s.fmt :=
+  ⟨lemma_rinv_captureAll s c only h, rfl⟩
+
+theorem lemma_followUp_inv (fuel : Nat) : ∀ (s : Insp) (c : Bytes) (seen : List Nat), SInv s →
+    SInv (followUp fuel s c seen).1 ∧ (followUp fuel s c seen).1.fmt = s.fmt := by
+  induction fuel with
+  | zero => intro s c seen h; unfold followUp; split <;> exact ⟨h, rfl⟩
+  | succ n ih =>
+    intro s c seen h
+    unfold followUp
+    dsimp only
+    split
+    · exact ⟨h, rfl⟩
+    · obtain ⟨h1, f1⟩ := lemma_captureAll_inv s c
+        ((s.regions.filter (fun p => !seen.contains p.2.rid)).map (·.1)) h
+      obtain ⟨h2, f2⟩ := lemma_postProcess_inv _ h1
+      split
+      · rename_i s2 e heq
+        rw [heq] at h2 f2
+        exact ⟨h2, f2.trans f1⟩
+      · rename_i s2 heq
+        rw [heq] at h2 f2
+        obtain ⟨h3, f3⟩ := ih s2 c _ h2
+        exact ⟨h3, f3.trans (f2.trans f1)⟩
+
+theorem lemma_regionComplete_regions (s : Insp) (n : String) :
+    (regionComplete s n).1.regions = s.regions ∧ (regionComplete s n).1.fmt = s.fmt := by
+  unfold regionComplete
+  split
+  · unfold qcowRegionComplete
+    split
+    · exact ⟨rfl, rfl⟩
+    · dsimp only
+      split
+      · exact ⟨rfl, rfl⟩
+      · split <;> exact ⟨rfl, rfl⟩
+  · split
+    · unfold vmdkParseDescriptor
+      split
+      · exact ⟨rfl, rfl⟩
+      · dsimp only
+        repeat' split
+        all_goals exact ⟨rfl, rfl⟩
+    · exact ⟨rfl, rfl⟩
+  · exact ⟨rfl, rfl⟩
+
+theorem lemma_runCallbacks_regions (names : List String) : ∀ (s : Insp),
+    (runCallbacks s names).1.regions = s.regions ∧ (runCallbacks s names).1.fmt = s.fmt := by
+  induction names with
+  | nil => intro s; exact ⟨rfl, rfl⟩
+  | cons n ns ih =>
+    intro s
+    unfold runCallbacks
+    obtain ⟨r1, f1⟩ := lemma_regionComplete_regions s n
+    split
+    · rename_i s1 e heq
+      rw [heq] at r1 f1
+      exact ⟨r1, f1⟩
+    · rename_i s1 heq
+      rw [heq] at r1 f1
+      obtain ⟨r2, f2⟩ := ih s1
+      exact ⟨r2.trans r1, f2.trans f1⟩
+
+/-- `eat_chunk` preserves the invariant, whether or not it raises -/
+theorem lemma_eatChunk_inv (s : Insp) (c : Bytes) (h : SInv s) :
+    SInv (eatChunk s c).1 ∧ (eatChunk s c).1.fmt = s.fmt := by
+  unfold eatChunk
+  dsimp only
+  split
+  · exact ⟨h, rfl⟩
+  · have h0 : SInv { s with total := s.total + c.length } := h
+    obtain ⟨h1, f1⟩ := lemma_captureAll_inv { s with total := s.total + c.length } c [] h0
+    obtain ⟨h2, f2⟩ := lemma_postProcess_inv _ h1
+    split
+    · rename_i s3 e heq
+      rw [heq] at h2 f2
+      exact ⟨h2, f2.trans f1⟩
+    · rename_i s3 heq
+      rw [heq] at h2 f2
+      obtain ⟨h3, f3⟩ := lemma_followUp_inv 8 s3 c (s.regions.map (·.2.rid)) h2
+      split
+      · rename_i s4 e heq4
+        rw [heq4] at h3 f3
+        exact ⟨h3, f3.trans (f2.trans f1)⟩
+      · rename_i s4 heq4
+        rw [heq4] at h3 f3
+        obtain ⟨r5, f5⟩ := lemma_runCallbacks_regions
+          ((s4.regions.filter (fun p => p.2.complete &&
+              !((s.regions.filter (·.2.complete)).map (·.2.rid)).contains p.2.rid)).map (·.1)) s4
+        refine ⟨?_, f5.trans (f3.trans (f2.trans f1))⟩
+        unfold SInv
+        rw [r5, f5]
+        exact h3
+
+theorem lemma_finish_inv (s : Insp) (h : SInv s) : SInv s.finish := by
+  unfold Insp.finish SInv
+  simp only
+  apply lemma_rinv_map s.fmt s.regions (fun p => p.2.finish) h
+  intro p hp
+  obtain ⟨a, b, c', d⟩ := h.each p hp
+  unfold Region.finish
+  split
+  · exact ⟨b, Nat.le_refl _, rfl, d⟩
+  · exact ⟨b, Nat.le_refl _, rfl, d⟩
+
+/-! ### from the invariant to the byte bound -/
+
+theorem lemma_sum_erase (w : String → Nat) (x : String) : ∀ (A : List String), x ∈ A →
+    (A.map w).sum = w x + ((A.erase x).map w).sum := by
+  intro A
+  induction A with
+  | nil => intro h; simp at h
+  | cons a A ih =>
+    intro h
+    by_cases hax : a = x
+    · subst hax; simp
+    · have hx : x ∈ A := by
+        simp only [List.mem_cons] at h
+        rcases h with h | h
+        · exact absurd h.symm hax
+        · exact h
+      have : (a :: A).erase x = a :: A.erase x := by
+        simp [hax]
+      rw [this]
+      simp only [List.map_cons, List.sum_cons, ih hx]
+      omega
+
+theorem lemma_sum_nodup_subset (w : String → Nat) : ∀ (l A : List String), l.Nodup → (∀ x ∈ l, x ∈ A) →
+    (l.map w).sum ≤ (A.map w).sum := by
+  intro l
+  induction l with
+  | nil => intro A _ _; simp
+  | cons x l ih =>
+    intro A hn hs
+    have hx : x ∈ A := hs x (by simp)
+    rw [lemma_sum_erase w x A hx]
+    simp only [List.map_cons, List.sum_cons]
+    have hn' := List.nodup_cons.mp hn
+    have := ih (A.erase x) hn'.2 (by
+      intro y hy
+      have hyA := hs y (by simp [hy])
+      have hne : y ≠ x := by
+        intro e; subst e; exact hn'.1 hy
+      exact (List.mem_erase_of_ne hne).mpr hyA)
+    omega
+
+theorem lemma_retained_le (f : Fmt) (rs : List (String × Region)) (h : RInv f rs) :
+    (rs.map (fun p => p.2.data.length)).sum ≤ ((allowed f).map (cap f)).sum := by
+  have h1 : (rs.map (fun p => p.2.data.length)).sum ≤ ((rs.map (·.1)).map (cap f)).sum := by
+    have : ∀ (l : List (String × Region)), (∀ p ∈ l, p.2.data.length ≤ cap f p.1) →
+        (l.map (fun p => p.2.data.length)).sum ≤ ((l.map (·.1)).map (cap f)).sum := by
+      intro l
+      induction l with
+      | nil => intro _; simp
+      | cons a l ih =>
+        intro hl
+        simp only [List.map_cons, List.sum_cons]
+        have := hl a (by simp)
+        have := ih (fun p hp => hl p (by simp [hp]))
+        omega
+    apply this
+    intro p hp
+    obtain ⟨_, b, c, _⟩ := h.each p hp
+    omega
+  have h2 := lemma_sum_nodup_subset (cap f) (rs.map (·.1)) (allowed f) h.nodup (by
+    intro x hx
+    simp only [List.mem_map] at hx
+    obtain ⟨p, hp, rfl⟩ := hx
+    exact (h.each p hp).1)
+  omega
+
+/-- Boolean check of the invariant on a concrete region table -/
+def rinvB (f : Fmt) (rs : List (String × Region)) : Bool :=
+  decide (rs.map (·.1)).Nodup &&
+  rs.all (fun p => (allowed f).contains p.1 && decide (p.2.data.length ≤ p.2.length) &&
+    decide (p.2.length ≤ cap f p.1) && (!p.2.isEnd || (decide (0 < p.2.length) && p.1 == "footer")))
+
+theorem lemma_rinvB (f : Fmt) (rs : List (String × Region)) (h : rinvB f rs = true) : RInv f rs := by
+  unfold rinvB at h
+  simp only [Bool.and_eq_true, decide_eq_true_eq, List.all_eq_true, List.contains_eq_mem,
+    Bool.or_eq_true, Bool.not_eq_true', beq_iff_eq] at h
+  obtain ⟨hn, he⟩ := h
+  refine ⟨hn, fun p hp => ?_⟩
+  obtain ⟨⟨⟨a, b⟩, c⟩, d⟩ := he p hp
+  refine ⟨a, b, c, fun hE => ?_⟩
+  rcases d with d | d
+  · rw [hE] at d; simp at d
+  · exact d
+
+end Oslo.Insp
